@@ -30,7 +30,7 @@ type triple struct{ tag, addr, cmd string }
 // ccHandshake: one real client handshake for (tag, addr, cmd) against a real server; `breakIt` makes
 // the server drop the connection right after reading the client's first message.
 func ccHandshake(cache *security.SessionCache, t triple, validCmds []int, breakIt bool, stall bool, explicitSid string, clientAuth security.SecurityLevel) (neg *security.SecurityNegotiation, resumed bool, err error) {
-	neg, resumed, _, _, err = ccHandshakeDecl(cache, t, validCmds, breakIt, stall, explicitSid, clientAuth)
+	neg, resumed, _, _, err = ccHandshakeDecl(cache, t, 0, validCmds, breakIt, stall, explicitSid, clientAuth)
 	return
 }
 
@@ -77,7 +77,9 @@ func serverDeclared(c2s, s2c, key []byte) (string, bool) {
 
 // ccHandshakeDecl is ccHandshake that also reports the server's own declaration of the commands valid
 // for the new session (full handshakes only), read from the wire independently of the client.
-func ccHandshakeDecl(cache *security.SessionCache, t triple, validCmds []int, breakIt bool, stall bool, explicitSid string, clientAuth security.SecurityLevel) (neg *security.SecurityNegotiation, resumed bool, declared string, declOK bool, err error) {
+// authCmd is the client's SecurityConfig.AuthCommand (0 = absent): the operation a wrapper command is
+// about. It is NOT the command of the connection; t.cmd (SecurityConfig.Command) is.
+func ccHandshakeDecl(cache *security.SessionCache, t triple, authCmd int, validCmds []int, breakIt bool, stall bool, explicitSid string, clientAuth security.SecurityLevel) (neg *security.SecurityNegotiation, resumed bool, declared string, declOK bool, err error) {
 	ca, cb := bufpipe.Pair("10.0.0.1:1111", "10.0.0.2:9618")
 	d := ccHonestBound
 	if stall {
@@ -121,7 +123,7 @@ func ccHandshakeDecl(cache *security.SessionCache, t triple, validCmds []int, br
 	fmt.Sscan(t.cmd, &cmd)
 	cc := &security.SecurityConfig{AuthMethods: toMethods([]string{"CLAIMTOBE"}), Authentication: clientAuth,
 		CryptoMethods: toCiphers([]string{"AES"}), Encryption: security.SecurityOptional, Integrity: security.SecurityOptional,
-		Command: cmd, SessionCache: cache, PeerName: t.addr, SecurityTag: t.tag, SessionID: explicitSid}
+		Command: cmd, AuthCommand: authCmd, SessionCache: cache, PeerName: t.addr, SecurityTag: t.tag, SessionID: explicitSid}
 	a := security.NewAuthenticator(cc, cst)
 	neg, err = a.ClientHandshake(ctx)
 	resumed = a.WasSessionResumed()
@@ -139,7 +141,7 @@ func ccHandshakeDecl(cache *security.SessionCache, t triple, validCmds []int, br
 const ccHonestBound = 20 * time.Second
 
 func runClientCache(c *Ctx) error {
-	c.Res.Rule = "histories (2-8 steps) of real client handshakes over (tag in {none,T1,T2,srvA}) x (server address in {srvA, srvB, two sinful addresses that differ only in their ?sock= decoration, and the address srvA,srvB (contains a comma) — with tag srvA + address srvB this is the pair whose keys collided when commas were not escaped}) x (command in {60007,60008,60009}) against a real server whose post-auth ValidCommands vary, the client's own authentication policy drawn from PREFERRED / NEVER / REQUIRED, interleaved with server restart (session forgotten -> SID_NOT_FOUND), broken connections (peer closes) and stalled ones (peer goes silent, the client's deadline fires), client-side expiry (virtual time), explicit invalidation, InvalidateExpired, and handshakes that name a cached session explicitly by id under an arbitrary triple; after every step all 60 LookupByCommand routes are compared with the model and with a reference map (tag,addr,cmd) -> session kept by the spec rules; distinct by history; non-trivial = the history touches >=2 distinct triples"
+	c.Res.Rule = "histories (2-8 steps) of real client handshakes over (tag in {none,T1,T2,srvA}) x (server address in {srvA, srvB, two sinful addresses that differ only in their ?sock= decoration, and the address srvA,srvB (contains a comma) — with tag srvA + address srvB this is the pair whose keys collided when commas were not escaped}) x (command in {60007,60008,60009}) x (the client's AuthCommand: absent, equal to the command, another command that has / has not a route to a live session under the same tag and address) against a real server whose post-auth ValidCommands vary, the client's own authentication policy drawn from PREFERRED / NEVER / REQUIRED, interleaved with server restart (session forgotten -> SID_NOT_FOUND), broken connections (peer closes) and stalled ones (peer goes silent, the client's deadline fires), client-side expiry (virtual time), explicit invalidation, InvalidateExpired, and handshakes that name a cached session explicitly by id under an arbitrary triple; after every step all 60 LookupByCommand routes are compared with the model and with a reference map (tag,addr,cmd) -> session kept by the spec rules; distinct by history; non-trivial = the history touches >=2 distinct triples"
 	tags := []string{"", "T1", "T2", "srvA"}
 	addrs := []string{"srvA", "srvB", "<127.0.0.1:9618?sock=schedd_1>", "<127.0.0.1:9618?sock=startd_2>", "srvA,srvB"}
 	cmds := []string{"60007", "60008", "60009"}
@@ -162,6 +164,11 @@ func runClientCache(c *Ctx) error {
 		ref := map[triple]string{}   // reference map kept by the spec rules
 		expired := map[string]bool{} // sids expired on the client
 		authOf := map[string]bool{}  // was the session established with authentication
+		// what the SERVER declared valid for each session (read from the wire at the full handshake):
+		// the only commands a connection may resume that session for, whatever else the client's
+		// configuration (AuthCommand) names
+		declaredFor := map[string]map[string]bool{}
+		var dims []string // generator dimensions that do not travel in the ops (part of the distinct key)
 		var sids []string
 		seen := map[triple]bool{}
 		steps := 2 + c.Rng.Intn(7)
@@ -197,6 +204,77 @@ func runClientCache(c *Ctx) error {
 				if small {
 					t = triple{pick(c, []string{"", "T1"}), pick(c, addrs), pick(c, []string{"60007", "60008"})}
 				}
+				// the client's AuthCommand: absent / equal to Command / another command, with or without a
+				// route to a live session under this (tag, address). The command of the connection stays t.cmd.
+				routed := func(tg, ad, cm string) bool {
+					sid, ok := ref[triple{tg, ad, cm}]
+					return ok && !expired[sid]
+				}
+				authCmd, authClass := 0, "absent"
+				switch c.Rng.Intn(5) {
+				case 0:
+				case 1:
+					fmt.Sscan(t.cmd, &authCmd)
+					authClass = "equal"
+				default:
+					wantRoute := c.Rng.Intn(3) != 0
+					if wantRoute && len(ref) > 0 && c.Rng.Intn(2) == 0 {
+						// aim at the class: a (tag, address) that holds a live route for some command, and a
+						// connection for ANOTHER command there
+						var keys []triple
+						for tt, sid := range ref {
+							if !expired[sid] {
+								keys = append(keys, tt)
+							}
+						}
+						sort.Slice(keys, func(a, b int) bool {
+							return keys[a].tag+"\x00"+keys[a].addr+"\x00"+keys[a].cmd < keys[b].tag+"\x00"+keys[b].addr+"\x00"+keys[b].cmd
+						})
+						if len(keys) > 0 {
+							kk := pick(c, keys)
+							var others []string
+							for _, cm := range cmds {
+								if cm != kk.cmd {
+									others = append(others, cm)
+								}
+							}
+							t = triple{kk.tag, kk.addr, pick(c, others)}
+						}
+					}
+					var with, without []string
+					for _, cm := range cmds {
+						if cm == t.cmd {
+							continue
+						}
+						if routed(t.tag, t.addr, cm) {
+							with = append(with, cm)
+						} else {
+							without = append(without, cm)
+						}
+					}
+					var ac string
+					switch {
+					case wantRoute && len(with) > 0:
+						ac = pick(c, with)
+					case !wantRoute && len(without) > 0:
+						ac = pick(c, without)
+					default:
+						ac = pick(c, append(with, without...))
+					}
+					fmt.Sscan(ac, &authCmd)
+					authClass = "other-without-route"
+					if routed(t.tag, t.addr, ac) {
+						authClass = "other-with-route"
+						if !routed(t.tag, t.addr, t.cmd) {
+							authClass = "other-with-route:command-without"
+						} else if ref[triple{t.tag, t.addr, ac}] != ref[t] {
+							authClass = "other-with-route:command-routes-elsewhere"
+						}
+					}
+				}
+				c.Count("authcommand:" + authClass)
+				dims = append(dims, fmt.Sprintf("%d:auth=%d", s, authCmd))
+				hsNote := fmt.Sprintf("# handshake tag=%q addr=%s Command=%s AuthCommand=%d (%s)", t.tag, t.addr, t.cmd, authCmd, authClass)
 				seen[t] = true
 				vc := pick(c, [][]int{nil, {60007, 60008}, {60007}, {60008, 60009}})
 				breakIt := c.Rng.Intn(6) == 0
@@ -217,7 +295,7 @@ func runClientCache(c *Ctx) error {
 				// the cache, REQUIRED must not ride such a session later (it does a full handshake)
 				clientAuth := pick(c, []security.SecurityLevel{security.SecurityPreferred, security.SecurityPreferred, security.SecurityNever, security.SecurityRequired})
 				req := clientAuth == security.SecurityRequired
-				neg, resumed, declared, declOK, err := ccHandshakeDecl(cache, t, vc, breakIt, stall, "", clientAuth)
+				neg, resumed, declared, declOK, err := ccHandshakeDecl(cache, t, authCmd, vc, breakIt, stall, "", clientAuth)
 				var r, full string
 				full = "~|none|~|0|-"
 				var sre *security.SessionResumptionError
@@ -229,12 +307,24 @@ func runClientCache(c *Ctx) error {
 						c.Violate(Violation{Property: "C03", Key: "C03:client-resumed-unauthenticated-under-required", What: "a client whose policy marks authentication REQUIRED returned success by resuming a session that was established without authentication",
 							Ops: append(append([]string{}, ops...), fmt.Sprintf("# handshake tag=%q addr=%s cmd=%s Authentication=REQUIRED", t.tag, t.addr, t.cmd)), Expected: "a full handshake in which authentication runs", Observed: "resumed " + neg.SessionId})
 					}
+					// a client resumes only for a command the server declared valid for that session: the
+					// command of the connection (Command), whatever AuthCommand says
+					if !declaredFor[neg.SessionId][t.cmd] {
+						c.Violate(Violation{Property: "C07", Key: "C07:resumed-for-undeclared-command", What: "the client resumed a session for a connection whose command the server did not declare valid for that session",
+							Ops: append(append([]string{}, ops...), hsNote), Expected: "a full handshake: the server declared session " + neg.SessionId + " valid for {" + ccSet(declaredFor[neg.SessionId]) + "} only", Observed: "resumed " + neg.SessionId + " for command " + t.cmd})
+					}
 					want, ok := ref[t]
 					if !ok || want != neg.SessionId || expired[neg.SessionId] {
 						c.Violate(Violation{Property: "C07", Key: "C07:reused-wrong-session", What: "client resumed a cached session that the reference map does not allow for this (tag, server, command)",
 							Ops: append(append([]string{}, ops...), fmt.Sprintf("# handshake tag=%q addr=%s cmd=%s", t.tag, t.addr, t.cmd)), Expected: fmt.Sprintf("%q (present=%v)", want, ok), Observed: neg.SessionId})
 					}
 				case errors.As(err, &sre):
+					// the same clause on an attempt that did not succeed: the resumption request named a
+					// session for a command the server never declared valid for it
+					if !declaredFor[sre.SessionID][t.cmd] {
+						c.Violate(Violation{Property: "C07", Key: "C07:resumption-attempted-for-undeclared-command", What: "the client asked to resume a session for a connection whose command the server did not declare valid for that session (the attempt failed, and the session was thrown away with it)",
+							Ops: append(append([]string{}, ops...), hsNote), Expected: "a full handshake: the server declared session " + sre.SessionID + " valid for {" + ccSet(declaredFor[sre.SessionID]) + "} only", Observed: "resumption of " + sre.SessionID + " attempted for command " + t.cmd})
+					}
 					r = "ok resume-failed sid=" + sre.SessionID
 					if answer == "authorized" {
 						r = "ok resume-failed-unexpectedly sid=" + sre.SessionID
@@ -283,10 +373,12 @@ func runClientCache(c *Ctx) error {
 							c.Count("full-although-cached")
 						}
 					}
+					declaredFor[neg.SessionId] = map[string]bool{}
 					for _, cm := range strings.Split(declared, ",") {
 						cm = strings.TrimSpace(cm)
 						if cm != "" {
 							ref[triple{t.tag, t.addr, cm}] = neg.SessionId
+							declaredFor[neg.SessionId][cm] = true
 						}
 					}
 				default:
@@ -434,7 +526,7 @@ func runClientCache(c *Ctx) error {
 				}
 			}
 		}
-		c.Distinct(strings.Join(ops, "\n"), len(seen) >= 2)
+		c.Distinct(strings.Join(ops, "\n")+"\n"+strings.Join(dims, " "), len(seen) >= 2)
 		if i < 2 {
 			c.Sample(map[string]any{"ops": abbreviate(ops), "real": abbreviate(real)})
 		}
@@ -614,6 +706,16 @@ func ccErrClass(err error) string {
 		return "cancelled"
 	}
 	return "other"
+}
+
+// ccSet renders a set of commands sorted.
+func ccSet(m map[string]bool) string {
+	var o []string
+	for k := range m {
+		o = append(o, k)
+	}
+	sort.Strings(o)
+	return strings.Join(o, ",")
 }
 
 // canonList: a comma-separated list as a sorted set of trimmed non-empty items.
